@@ -12,7 +12,7 @@
 //! in serialisation to/from STAM JSON. Most of the actual deserialisation/serialisation methods
 //! are implemented alongside the low-level data structures themselves, not here.
 
-use crate::config::{Config, SerializeMode};
+use crate::config::{Config, NoIncludeGuard};
 use crate::error::StamError;
 use crate::file::*;
 use crate::types::*;
@@ -56,10 +56,12 @@ where
                 config.workdir()
             )
         });
-        if let Type::TextResource | Type::AnnotationDataSet = Self::typeinfo() {
-            //introspection to detect whether type can do @include
-            config.set_serialize_mode(SerializeMode::NoInclude); //set standoff mode, what we're about the write is the standoff file
-        }
+        //introspection to detect whether type can do @include: what we're about the write is the standoff file itself
+        let _noinclude = if let Type::TextResource | Type::AnnotationDataSet = Self::typeinfo() {
+            Some(NoIncludeGuard::new())
+        } else {
+            None
+        };
         let compact = match config.dataformat {
             DataFormat::Json { compact } => compact,
             _ => {
@@ -77,10 +79,6 @@ where
         };
         let writer = open_file_writer(filename, &config)?;
         let result = self.to_json_writer(writer, compact);
-        if let Type::TextResource | Type::AnnotationDataSet = Self::typeinfo() {
-            //introspection to detect whether type can do @include
-            config.set_serialize_mode(SerializeMode::AllowInclude); //set standoff mode, what we're about the write is the standoff file
-        }
         result
     }
 
@@ -88,10 +86,12 @@ where
     /// The actual dataformat can be set via `config`, the default is STAM JSON.
     /// If `config` not not specified, an attempt to fetch the AnnotationStore's initial config is made
     fn to_json_string(&self, config: &Config) -> Result<String, StamError> {
-        if let Type::TextResource | Type::AnnotationDataSet = Self::typeinfo() {
-            //introspection to detect whether type can do @include
-            config.set_serialize_mode(SerializeMode::NoInclude); //set standoff mode, what we're about the write is the standoff file
-        }
+        //introspection to detect whether type can do @include: what we're about the write is the standoff file itself
+        let _noinclude = if let Type::TextResource | Type::AnnotationDataSet = Self::typeinfo() {
+            Some(NoIncludeGuard::new())
+        } else {
+            None
+        };
         let result = match config.dataformat {
             DataFormat::Json { compact: false } => {
                 serde_json::to_string_pretty(&self).map_err(|e| {
@@ -115,10 +115,6 @@ where
                 config.dataformat
             ))),
         };
-        if let Type::TextResource | Type::AnnotationDataSet = Self::typeinfo() {
-            //introspection to detect whether type can do @include
-            config.set_serialize_mode(SerializeMode::AllowInclude); //set standoff mode, what we're about the write is the standoff file
-        }
         result
     }
 
